@@ -9,131 +9,99 @@ Section WithCfg.
 Variable c : cfg.
 Variable filt : msg -> fres.
 
+(* the zombie branch of takeMsg is only taken with both queues empty *)
 Lemma idle_die s evs0 s' evs : idle s evs0 = (s', evs) ->
-  pending s' = pending s /\ (In DriverDie evs -> In DriverDie evs0 \/ zombie s = true).
+  pending s' = pending s /\ (In DriverDie evs -> In DriverDie evs0 \/ pending s = []).
 Proof.
-  unfold idle. destruct (zombie s) eqn:EZ; intro H; inversion H; subst.
-  - destruct s; cbn in *. auto.
+  unfold idle. destruct (zombie s && negb (fast_nonempty s) && negb (queue_nonempty s)) eqn:EZ;
+    intro H; inversion H; subst.
+  - split; [destruct s; reflexivity|]. intros _. right.
+    apply andb_prop in EZ. destruct EZ as [EZ Q]. apply andb_prop in EZ. destruct EZ as [_ F].
+    unfold pending, fast_nonempty, queue_nonempty in *.
+    destruct (fast s); [|discriminate]. destruct (qpending s); [reflexivity | discriminate].
   - auto.
 Qed.
 
-Lemma dequeue_none now s s' : dequeue c now s = (s', None) ->
-  lastJoin s <= now -> c_join c <= 0 -> qpending s = [].
+Lemma queueMsg_nodie s m s2 ev2 : queueMsg c s m = (s2, ev2) -> ~ In DriverDie ev2.
 Proof.
-  unfold dequeue, qpending. destruct s as [h n l lj f lt lp z ac op dd nx]. cbn.
-  destruct h; [|discriminate]. destruct n; [|discriminate]. destruct l as [|e l']; [reflexivity|].
-  destruct (is_join e); [|discriminate]. destruct (lj + c_join c <=? now) eqn:E; [discriminate|].
-  intros _ A B. apply Z.leb_gt in E. lia.
-Qed.
-
-Lemma dequeue_fields now s s' r : dequeue c now s = (s', r) ->
-  lastTake s' = lastTake s /\ (lastJoin s' = lastJoin s \/ lastJoin s' = now).
-Proof.
-  unfold dequeue. destruct s as [h n l lj f lt lp z ac op dd nx]. cbn.
-  destruct h; [destruct n; [destruct l as [|e l']; [|destruct (is_join e); [destruct (lj + c_join c <=? now)|]]|]|];
-    intro H; inversion H; subst; cbn; auto.
-Qed.
-
-Lemma queueMsg_nodie s m s2 ev2 : queueMsg c s m = (s2, ev2) ->
-  ~ In DriverDie ev2 /\ zombie s2 = zombie s.
-Proof.
-  unfold queueMsg, enqueue. destruct (zombie s) eqn:EZ.
-  - intro H; inversion H; subst. split; [intros [K|[]]; discriminate | assumption].
+  unfold queueMsg, enqueue. destruct (zombie s).
+  - intro H; inversion H; subst. intros [K|[]]; discriminate.
   - destruct (q_contains s m && c_dup c).
-    + intro H; inversion H; subst. split; [intros [K|[]]; discriminate | assumption].
-    + destruct s; cbn in *. destruct (classify (mcmd m)); intro H; inversion H; subst; cbn;
-        (split; [intros [K|[]]; discriminate | first [assumption | reflexivity]]).
+    + intro H; inversion H; subst. intros [K|[]]; discriminate.
+    + destruct (classify (mcmd m)); intro H; inversion H; subst; intros [K|[]]; discriminate.
 Qed.
 
-Hypothesis PD : pos_delay filt.
-Hypothesis THR : c_throttle c <= 0.
-Hypothesis JOIN : c_join c <= 0.
-
-Lemma after_drain (s1 : st) (f : src) (e : entry) (now : Z) e1 (r : option Z) :
-  (match filt (snd e) with
-   | FPass => (s1, [Took f e now; Delivered e (snd e) now], None)
-   | FRewrite out => (s1, [Took f e now; Delivered e out now], None)
-   | FDrop dt => (s1, [Took f e now; Dropped e], Some dt)
-   end) = (s1, e1, r) ->
-  ~ In DriverDie e1 /\ forall dt, r = Some dt -> 0 < dt.
+Lemma after_nodie (s1 : st) (f : src) (e : entry) (now : Z) s2 e1 (r : option Z) :
+  finish filt s1 f e now = (s2, e1, r) -> s2 = s1 /\ ~ In DriverDie e1.
 Proof.
-  destruct (filt (snd e)) eqn:EFi; intro H; inversion H; subst;
-    (split; [intros [K|[K|[]]]; discriminate|]); intros d K; try discriminate.
-  inversion K; subst. eapply PD; eauto.
+  intro H. apply finish_cases in H. destruct H as [-> [x [-> K0]]]. split; [reflexivity|].
+  intros [K|[K|[]]]; [discriminate|].
+  destruct K0 as [[? [-> _]]|[[? [-> _]]|[? [-> _]]]]; discriminate.
 Qed.
 
+(* one activation of takeMsg: the driver is killed only with nothing pending,
+   and then the call does not recurse *)
 Lemma body_drain s now s1 e1 r :
-  lastTake s < now -> lastJoin s <= now ->
   take_body c filt s now = (s1, e1, r) ->
-  (In DriverDie e1 -> pending s1 = [] /\ r = None)
-  /\ (forall dt, r = Some dt -> ~ In DriverDie e1 /\ 0 < dt /\ lastTake s1 <= now /\ lastJoin s1 <= now).
+  In DriverDie e1 -> pending s1 = [] /\ r = None.
 Proof.
-  intros LT LJ. unfold take_body.
+  unfold take_body.
   destruct (fast s) as [|e fr] eqn:EF.
   - destruct (queue_nonempty s) eqn:EQ.
-    + destruct (now - lastTake s <=? c_throttle c) eqn:ET; [apply Z.leb_le in ET; lia|].
-      destruct (dequeue c now (set_lastTake s now)) as [s2 [e|]] eqn:ED.
-      * intro H.
-        assert (s1 = s2) by (destruct (filt (snd e)); inversion H; reflexivity). subst s2.
-        destruct (after_drain _ _ _ _ _ _ H) as [ND PDt].
-        apply dequeue_fields in ED. destruct ED as [A B].
-        split; [intro K; exfalso; auto|]. intros dt K. split; [exact ND|]. split; [eauto|].
-        split; [rewrite A; destruct s; cbn; lia | destruct B as [B|B]; rewrite B; destruct s; cbn in *; lia].
-      * exfalso. apply dequeue_none in ED; auto.
-        unfold queue_nonempty in EQ. destruct s; unfold qpending in *; cbn in *. rewrite ED in EQ. discriminate.
+    + destruct (now - lastTake s <=? c_throttle c).
+      * destruct (idle s []) as [s2 ev2] eqn:EI. intro H; inversion H; subst. intro D.
+        apply idle_die in EI. destruct EI as [EP K]. destruct (K D) as [[]|K1]. split; [congruence | reflexivity].
+      * destruct (dequeue c now (set_lastTake s now)) as [s2 [e|]] eqn:ED.
+        -- intros H D. exfalso. apply after_nodie in H. destruct H as [_ H]. auto.
+        -- destruct (idle s2 []) as [s3 ev3] eqn:EI. intro H; inversion H; subst. intro D.
+           apply idle_die in EI. destruct EI as [EP K]. destruct (K D) as [[]|K1]. split; [congruence | reflexivity].
     + assert (PN : pending s = []).
       { unfold pending. rewrite EF. unfold queue_nonempty in EQ. destruct (qpending s); [reflexivity | discriminate]. }
       destruct (afterConnect s && c_ping c && (lastping s + c_interval c <? now));
         [destruct (outPing s); [|destruct (negb (zombie s)) eqn:EZ]|].
-      * destruct (idle s [Reconnect]) as [s2 ev2] eqn:EI. intro H; inversion H; subst.
-        apply idle_die in EI. destruct EI as [EP _]. split; [intros _; split; [congruence | reflexivity] | discriminate].
+      * destruct (idle s [Reconnect]) as [s2 ev2] eqn:EI. intro H; inversion H; subst. intros _.
+        apply idle_die in EI. destruct EI as [EP _]. split; [congruence | reflexivity].
       * destruct (queueMsg c (set_ping s now true) (internal c_PING now)) as [s2 ev2] eqn:EQM.
-        destruct (idle s2 ev2) as [s3 ev3] eqn:EI. intro H; inversion H; subst.
-        apply queueMsg_nodie in EQM. destruct EQM as [ND EZ2].
-        apply idle_die in EI. destruct EI as [_ K].
-        split; [|discriminate]. intro D. exfalso. destruct (K D) as [K1|K1]; [auto|].
-        rewrite EZ2 in K1. destruct s; cbn in *. rewrite K1 in EZ. discriminate.
-      * destruct (idle s []) as [s2 ev2] eqn:EI. intro H; inversion H; subst.
-        apply idle_die in EI. destruct EI as [EP _]. split; [intros _; split; [congruence | reflexivity] | discriminate].
-      * destruct (idle s []) as [s2 ev2] eqn:EI. intro H; inversion H; subst.
-        apply idle_die in EI. destruct EI as [EP _]. split; [intros _; split; [congruence | reflexivity] | discriminate].
-  - intro H.
-    assert (s1 = set_fast s fr) by (destruct (filt (snd e)); inversion H; reflexivity). subst s1.
-    destruct (after_drain _ _ _ _ _ _ H) as [ND PDt].
-    split; [intro K; exfalso; auto|]. intros dt K. split; [exact ND|]. split; [eauto|].
-    destruct s; cbn in *; lia.
+        destruct (idle s2 ev2) as [s3 ev3] eqn:EI. intro H; inversion H; subst. intro D.
+        apply queueMsg_nodie in EQM. apply idle_die in EI. destruct EI as [EP K].
+        destruct (K D) as [K1|K1]; [contradiction | split; [congruence | reflexivity]].
+      * destruct (idle s []) as [s2 ev2] eqn:EI. intro H; inversion H; subst. intros _.
+        apply idle_die in EI. destruct EI as [EP _]. split; [congruence | reflexivity].
+      * destruct (idle s []) as [s2 ev2] eqn:EI. intro H; inversion H; subst. intros _.
+        apply idle_die in EI. destruct EI as [EP _]. split; [congruence | reflexivity].
+  - intros H D. exfalso. apply after_nodie in H. destruct H as [_ H]. auto.
 Qed.
 
 Lemma take_drain : forall f s now s' evs,
-  lastTake s < now -> lastJoin s <= now ->
   take c filt f s now = (s', evs) -> In DriverDie evs -> pending s' = [].
 Proof.
-  induction f as [|f IH]; intros s now s' evs LT LJ; simpl;
+  induction f as [|f IH]; intros s now s' evs; simpl;
     destruct (take_body c filt s now) as [[s1 e1] r] eqn:EB;
-    destruct (body_drain _ _ _ _ _ LT LJ EB) as [B1 B2].
-  - destruct r as [dt|]; intros H D; inversion H; subst.
-    + exfalso. destruct (B2 dt eq_refl) as [ND _]. auto.
-    + apply B1; auto.
+    pose proof (body_drain _ _ _ _ _ EB) as B1.
+  - destruct r as [dt|]; intros H D; inversion H; subst; destruct (B1 D) as [P1 R1]; [discriminate | exact P1].
   - destruct r as [dt|].
     + destruct (take c filt f s1 (now + dt)) as [s2 e2] eqn:ET. intros H D; inversion H; subst.
-      destruct (B2 dt eq_refl) as [ND [Pdt [A B]]].
-      apply in_app_or in D. destruct D as [D|D]; [exfalso; auto|].
-      eapply IH; [| |exact ET|exact D]; lia.
+      apply in_app_or in D. destruct D as [D|D]; [destruct (B1 D); discriminate|].
+      eapply IH; eauto.
     + intros H D; inversion H; subst. apply B1; auto.
 Qed.
 
-Lemma step_drain s o s' evs :
-  dead s = false -> op_ok s o = true -> step c filt s o = (s', evs) ->
-  In DriverDie evs -> pending s' = [].
+(* the driver is killed only with both queues empty -- except by die() itself
+   before the end of MOTD, which closes at once by design *)
+Theorem drain_before_die s o s' evs :
+  step c filt s o = (s', evs) -> In DriverDie evs ->
+  pending s' = [] \/ (o = Die /\ afterConnect s = false).
 Proof.
-  intros DD OK. unfold step. rewrite DD. destruct o; simpl in OK.
-  - intros H D. apply queueMsg_nodie in H. destruct H; contradiction.
+  unfold step. destruct (dead s).
+  { intros H D; inversion H; subst. destruct D. }
+  destruct o.
+  - intros H D. apply queueMsg_nodie in H. contradiction.
   - unfold sendMsg. destruct (zombie s); intros H D; inversion H; subst; destruct D as [K|[]]; discriminate.
-  - apply andb_prop in OK. destruct OK as [A B]. apply Z.ltb_lt in A. apply Z.leb_le in B.
-    unfold takeMsg. apply take_drain; auto.
-  - unfold die. destruct s as [h n l lj f lt lp z ac op dd nx]. cbn in *. subst ac.
-    intros H D; inversion H; subst. destruct D.
-  - unfold reset.
+  - unfold takeMsg. intros H D. left. eapply take_drain; eauto.
+  - unfold die. destruct s as [h n l lj f lt lp z ac op dd nx]. cbn. destruct ac.
+    + intros H D; inversion H; subst. destruct D.
+    + intros _ _. right. auto.
+  - unfold reset. intros H D. left. revert H D.
     change (zombie (St [] [] [] 0 [] 0 now (zombie s) false false (dead s) (nxt s))) with (zombie s).
     destruct (zombie s) eqn:EZ.
     + intros H _; inversion H; subst. reflexivity.
@@ -152,75 +120,26 @@ Proof.
   - intros H D; inversion H; subst. destruct D.
   - intros H D; inversion H; subst. destruct D.
 Qed.
-
-Lemma sched_last : forall pre s0 o s ev,
-  sched_ok c filt s0 (pre ++ [o]) = true -> run_from c filt s0 pre = (s, ev) ->
-  dead s || op_ok s o = true.
-Proof.
-  induction pre as [|p r IH]; intros s0 o s ev; simpl.
-  - intros H E; inversion E; subst. apply andb_prop in H. tauto.
-  - destruct (step c filt s0 p) as [s1 e1] eqn:ES. simpl.
-    destruct (run_from c filt s1 r) as [s2 e2] eqn:ER. intros H E; inversion E; subst.
-    apply andb_prop in H. destruct H as [_ H]. eapply IH; eauto.
-Qed.
-
-Theorem drain_on_domain pre o s ev0 s' evs :
-  sched_ok c filt st0 (pre ++ [o]) = true ->
-  run_from c filt st0 pre = (s, ev0) -> step c filt s o = (s', evs) ->
-  In DriverDie evs -> pending s' = [].
-Proof.
-  intros SO HR HS D. pose proof (sched_last _ _ _ _ _ SO HR) as K.
-  destruct (dead s) eqn:DD.
-  - unfold step in HS. rewrite DD in HS. inversion HS; subst. destruct D.
-  - simpl in K. eapply step_drain; eauto.
-Qed.
 End WithCfg.
 
-(* the statement with the domain as one boolean *)
-Theorem drain_before_die_on_domain c filt pre o s ev0 s' evs :
-  pos_delay filt -> drain_dom c filt (pre ++ [o]) = true ->
-  run_from c filt st0 pre = (s, ev0) -> step c filt s o = (s', evs) ->
-  In DriverDie evs -> pending s' = [].
-Proof.
-  intros PD DOM. unfold drain_dom in DOM.
-  apply andb_prop in DOM. destruct DOM as [DOM SO]. apply andb_prop in DOM. destruct DOM as [T J].
-  apply Z.leb_le in T. apply Z.leb_le in J.
-  eapply drain_on_domain; eauto.
-Qed.
-
-(* ---- refutation: finding F18 ---- *)
+(* the old witness of finding C19.F18 (throttleTime 2, three messages, die(),
+   two polls one second apart): the second poll is throttled and now returns
+   nothing; the driver is killed by the poll that finds the queues empty *)
 Definition pass_all : msg -> fres := fun _ => FPass.
 Definition w_cfg : cfg := Cfg 2 0 false true 120 false.
-Definition w_msg (i k : Z) : msg := Msg i [80; 82; 73; 86; 77; 83; 71]%N k 0%N 0.
+Definition w_msg (i k : Z) : msg := Msg i [80; 82; 73; 86; 77; 83; 71]%N k 0%N 0 true.
 Definition w_pre : list op :=
   [Reset 1; Take 2; Take 2; Take 2; Connect; Queue (w_msg 5 0); Queue (w_msg 6 1); Queue (w_msg 7 2); Die; Take 10].
-Definition w_last : op := Take 11.
 
-Lemma pos_delay_pass_all : pos_delay pass_all.
-Proof. intros m dt H. discriminate. Qed.
-
-Theorem drain_before_die_refuted :
-  exists c pre o s ev0 s' evs,
-    pos_delay pass_all /\ drain_dom c pass_all (pre ++ [o]) = false /\
-    run_from c pass_all st0 pre = (s, ev0) /\ step c pass_all s o = (s', evs) /\
-    In DriverDie evs /\ length (pending s') = 2%nat.
+Example old_witness_drains :
+  let s := fst (run_from w_cfg pass_all st0 w_pre) in
+  ~ In DriverDie (snd (step w_cfg pass_all s (Take 11))) /\
+  length (pending (fst (step w_cfg pass_all s (Take 11)))) = 2%nat /\
+  let '(s', evs) := run_from w_cfg pass_all s [Take 11; Take 13; Take 16; Take 17] in
+  In DriverDie evs /\ pending s' = [] /\ length (delivered evs) = 2%nat.
 Proof.
-  exists w_cfg, w_pre, w_last.
-  destruct (run_from w_cfg pass_all st0 w_pre) as [s ev0] eqn:ER.
-  destruct (step w_cfg pass_all s w_last) as [s' evs] eqn:ES.
-  exists s, ev0, s', evs.
-  vm_compute in ER. inversion ER; subst. vm_compute in ES. inversion ES; subst.
-  split; [exact pos_delay_pass_all|]. split; [vm_compute; reflexivity|].
-  split; [reflexivity|]. split; [reflexivity|]. split; [left; reflexivity | reflexivity].
+  vm_compute. intuition (try reflexivity; try discriminate).
 Qed.
-
-(* non-vacuity of the domain: a history inside it that drains and then kills the driver *)
-Definition d_cfg : cfg := Cfg 0 0 false true 120 false.
-Definition d_pre : list op :=
-  [Reset 1; Take 2; Take 3; Take 4; Connect; Queue (w_msg 5 0); Queue (w_msg 6 1); Die; Take 10; Take 11].
-Example drain_domain_inhabited :
-  drain_dom d_cfg pass_all (d_pre ++ [Take 12]) = true /\ In DriverDie (snd (step d_cfg pass_all (fst (run_from d_cfg pass_all st0 d_pre)) (Take 12))).
-Proof. vm_compute. split; [reflexivity | left; reflexivity]. Qed.
 
 (* ---- refusal ---- *)
 Theorem queue_refusal_explicit c s m s' evs :
@@ -265,13 +184,11 @@ Proof.
                /\ Permutation (pending s) (e :: pending s1)).
   { pose proof (P_take_body c filt _ _ _ _ _ HB) as [L _].
     revert HB. unfold take_body.
-    assert (G : forall (s2 : st) f e e1 (r : option Z),
-      (match filt (snd e) with
-       | FPass => (s2, [Took f e now; Delivered e (snd e) now], None)
-       | FRewrite out => (s2, [Took f e now; Delivered e out now], None)
-       | FDrop d => (s2, [Took f e now; Dropped e], Some d)
-       end) = (s1, e1, Some dt) -> e1 = [Took f e now; Dropped e] /\ filt (snd e) = FDrop dt).
-    { intros s2 f e e1 r. destruct (filt (snd e)); intro H; inversion H; subst; auto. }
+    assert (G : forall (s2 : st) f e e1,
+      finish filt s2 f e now = (s1, e1, Some dt) -> e1 = [Took f e now; Dropped e] /\ filt (snd e) = FDrop dt).
+    { intros s2 f e e1 H. apply finish_cases in H. destruct H as [_ [x [-> K0]]].
+      destruct K0 as [[? [_ [K1 _]]]|[[? [_ [K1 _]]]|[d [-> [K1 K2]]]]]; try discriminate.
+      inversion K1; subst. auto. }
     assert (K : forall f e, evs = [Took f e now; Dropped e] -> Permutation (pending s) (e :: pending s1)).
     { intros f e ->. apply cnt_perm. intro y. specialize (L y). unfold accepted, loss in L. cbn in L.
       cnt_norm. lia. }
@@ -280,7 +197,7 @@ Proof.
       + destruct (now - lastTake s <=? c_throttle c).
         * destruct (idle s []); intro H; inversion H.
         * destruct (dequeue c now (set_lastTake s now)) as [s2 [e|]].
-          -- intro H. apply (G _ _ _ _ (Some dt)) in H. destruct H as [-> F]. do 2 eexists. split; [reflexivity|]. split; [exact F|]. eapply K; reflexivity.
+          -- intro H. apply G in H. destruct H as [-> F]. do 2 eexists. split; [reflexivity|]. split; [exact F|]. eapply K; reflexivity.
           -- destruct (idle s2 []); intro H; inversion H.
       + destruct (afterConnect s && c_ping c && (lastping s + c_interval c <? now)).
         * destruct (outPing s); [destruct (idle s [Reconnect]); intro H; inversion H|].
@@ -289,7 +206,7 @@ Proof.
              destruct (idle s2 ev2); intro H; inversion H.
           -- destruct (idle s []); intro H; inversion H.
         * destruct (idle s []); intro H; inversion H.
-    - intro H. apply (G _ _ _ _ (Some dt)) in H. destruct H as [-> F]. do 2 eexists. split; [reflexivity|]. split; [exact F|]. eapply K; reflexivity. }
+    - intro H. apply G in H. destruct H as [-> F]. do 2 eexists. split; [reflexivity|]. split; [exact F|]. eapply K; reflexivity. }
   split; [exact A|].
   destruct A as [f [e [_ [_ PM]]]]. apply Permutation_length in PM. simpl in PM.
   unfold takeMsg. rewrite PM. simpl. rewrite HB. reflexivity.
@@ -326,6 +243,6 @@ Proof.
   { unfold dequeue. destruct s as [h n l lj f lt lp z ac op dd nx]. cbn in *. subst. rewrite J.
     assert (X : (lj + c_join c <=? now) = true) by (apply Z.leb_le; lia). rewrite X. reflexivity. }
   rewrite DQ.
-  destruct (filt (snd e)); do 3 eexists; (split; [reflexivity|]); (split; [left; reflexivity|]);
+  unfold finish. destruct (filt (snd e)); do 3 eexists; (split; [reflexivity|]); (split; [left; reflexivity|]);
     destruct s; cbn; auto.
 Qed.
